@@ -676,6 +676,10 @@ pub fn c07_check<const N: usize>(o: &Opts, rep: &mut Report) {
         for s in Script::all_up_to(st.len.min(2)) {
             for k in 0..3 {
                 dbg.push(Act::IterDebug(k, s));
+                // formatter flags must reach the elements through the iterators' Debug impls too
+                for f in [1usize, 2, 5] {
+                    dbg.push(Act::IterDebug(f * 4 + k, s));
+                }
             }
         }
         for a in 0..=st.len {
